@@ -44,8 +44,11 @@ func (r *Rng) Fork() *Rng          { return NewRng(r.U64()) }
 // Trace writes the line protocol: operation lines, each followed by the
 // implementation's outputs prefixed with "> ".
 type Trace struct {
-	f     *os.File
-	w     *bufio.Writer
+	// FlushOps makes every operation line durable before the operation runs, so that a fatal error of
+	// the Go runtime (stack overflow: not recoverable) leaves the trace up to the fatal operation.
+	FlushOps bool
+	f        *os.File
+	w        *bufio.Writer
 	Cases int
 	Ops   int
 	path  string
@@ -78,6 +81,9 @@ func (t *Trace) Case(id int) { fmt.Fprintf(t.w, "case %d\n", id); t.Cases++ }
 func (t *Trace) Op(format string, a ...interface{}) {
 	fmt.Fprintf(t.w, format+"\n", a...)
 	t.Ops++
+	if t.FlushOps {
+		t.w.Flush()
+	}
 }
 func (t *Trace) Out(format string, a ...interface{}) {
 	s := fmt.Sprintf(format, a...)
